@@ -3,4 +3,5 @@ pub mod interp;
 pub mod poetic;
 pub mod rast;
 pub mod selftest;
+pub mod to_ast;
 pub mod value;
